@@ -4,6 +4,10 @@ from vlib.mir import callee_name, op_const, op_local, op_place, strip_generics
 from rules.send import _root_local
 
 NONNULL_APIS = ("std::slice::from_raw_parts", "std::slice::from_raw_parts_mut")
+# storing one element through a raw pointer (`p.add(i).write(v)`, the fill written as a loop) needs a non-null pointer just the same
+NONNULL_WRITES = ("std::ptr::mut_ptr::write", "std::ptr::write", "std::ptr::mut_ptr::write_volatile", "std::ptr::write_volatile")
+# ... and so does a memset of the region (`ptr::write_bytes(p, byte, n)`, the fill written without a slice)
+NONNULL_FILLS = ("std::ptr::write_bytes", "std::ptr::mut_ptr::write_bytes")
 NULL_MAKERS = ("std::ptr::null_mut", "std::ptr::null")
 
 
@@ -51,7 +55,7 @@ def rule_null_guard(ctx, cfg, F):
         tr = None
         for b, t in f.calls():
             name = strip_generics(callee_name(t))
-            if name not in NONNULL_APIS:
+            if name not in NONNULL_APIS and name not in NONNULL_WRITES and name not in NONNULL_FILLS:
                 continue
             n += 1
             tr = tr or Tracer(f)
@@ -71,7 +75,8 @@ def rule_null_guard(ctx, cfg, F):
             if not why:
                 R.ok("%s in %s: pointer cannot be null (%s)" % (name.split("::")[-1], f.path, ", ".join(sorted(map(repr, roots)))[:80]), f.loc(b), cfg)
                 continue
-            if _guarded(f, tr, b, t["args"][0], t["args"][1] if len(t["args"]) > 1 else None):
+            len_op = t["args"][1] if len(t["args"]) > 1 and name in NONNULL_APIS else (t["args"][2] if len(t["args"]) > 2 and name in NONNULL_FILLS else None)
+            if _guarded(f, tr, b, t["args"][0], len_op):
                 R.ok("%s in %s: nullable pointer (%s) guarded by a dominating non-null / non-zero-length edge" % (name.split("::")[-1], f.path, why[0]), f.loc(b), cfg)
             else:
                 R.violate("%s:%s:nullable-pointer-unguarded" % (strip_generics(f.path), name.split("::")[-1]),
@@ -219,7 +224,8 @@ def rule_setlen_cap(ctx, cfg, F):
                         conv = [(b2, t2) for b2, t2 in f.calls() if strip_generics(callee_name(t2)).endswith("::unwrap_or") and len(t2["args"]) == 2 and op_const(t2["args"][1]) == 0 and
                                 any(r.kind == "call" and r.id in ("libc::recv", "libc::read") for r in tr.roots_of_operand(t2["args"][0])) and
                                 any(strip_generics(callee_name(f.term(d[0]))).endswith("try_from") for d in f.defs().get(op_local(t2["args"][0]) or -1, []) if d[1] is None)]
-                        uses_conv = conv and any(r.kind == "call" and r.id in ("libc::recv", "libc::read") for r in tr.roots_of_operand(t["args"][1])) and \
+                        # (M is the read itself in the expression, and no `as` cast of its result exists: the unsigned count can only have come through the conversion)
+                        uses_conv = conv and \
                             not any(st_["s"] == "assign" and st_["rv"]["r"] == "cast" and any(r.kind == "call" and r.id in ("libc::recv", "libc::read") for r in tr.roots_of_operand(st_["rv"]["a"][0]))
                                     for b_ in f.live_blocks() for st_ in f.stmts(b_))
                         if uses_conv and rlen[0] == "bin" and rlen[1] == "Sub" and expr_strip_blocks(rlen[3]) == expr_strip_blocks(W):
